@@ -235,7 +235,7 @@ def run_generated(plan, env, res, tr):
     # a whole packet handed to a writer the caller has switched to sanitising, through write(): every string of it is
     # sanitised, also those outside its <chunked> section (the header `h`)
     h2 = (g["inside"] + "\u00ffx")[-2:] if len(g["inside"]) % 2 else ("\u00ff" + g["tail"] + "x")[:2]
-    pkt = srv.TalkTellServerPacket(h=h2, s1=g["inside"], inner=net.InnerChunked(a=g["tail"], b=g["flag"]), s2=g["tail"], kind=2,
+    pkt = srv.TalkTellServerPacket(h=h2, s1=g["inside"], inner=net.InnerChunked(a=g["tail"], b=g["flag"], c=9), s2=g["tail"], kind=2,
                                    kind_data=None, k=g["flag"] * 3, s3="z")
     for through_write in (True, False):
         w = EoWriter()
@@ -243,7 +243,7 @@ def run_generated(plan, env, res, tr):
         m = WriterModel()
         m.sanitize = True
         expect = (m.image("add_fixed_string", [h2, 2, False]) + m.image("add_string", [g["inside"]]) + b"\xff"
-                  + m.image("add_string", [g["tail"]]) + b"\xff" + m.image("add_short", [g["flag"]]) + b"\xff"
+                  + m.image("add_string", [g["tail"]]) + b"\xff" + m.image("add_short", [g["flag"]]) + m.image("add_char", [9]) + b"\xff"
                   + m.image("add_fixed_string", ["\u00ffes", 3, False]) + m.image("add_string", [g["tail"]]) + b"\xff"
                   + m.image("add_char", [2]) + b"\xff" + m.image("add_three", [g["flag"] * 3]) + m.image("add_encoded_string", ["z"]))
         if through_write:
